@@ -196,6 +196,23 @@ def preexisting_group_cases(ck):
                 gs = [[nm, ([sids[-1]] if i % 2 == 0 else []), [], (SECTION if i == 1 else None)] for i, nm in enumerate(names)]
                 out.append({"segs": [list(x) for x in segs], "groups": gs, "notes": {}, "root": r, "reorder": bool(G % 2),
                             "optimise": bool(variant), "ref": ref, "kind": "stored:old-groups-with-generated-style-ids"})
+    # the candidate index is taken AND an index with another number of digits is in use for the same first segment
+    # (9 and 10, 99 and 100; also with a gap): the chosen id must still be an unused one
+    for ti, segs in enumerate(trees[:2]):
+        ref = reference(segs)
+        sids = [x[0] for x in segs]
+        root = ref["root"]
+        for G, others in ((9, [10]), (9, [10, 11, 8]), (99, [100]), (10, [9, 11, 100]), (9, [11])):
+            names = ["seg_group_%d_seg_%d" % (G, root)] + ["seg_group_%d_seg_%d" % (j, root) for j in others]
+            kid = (ref["kids"].get(root) or [root])[0]
+            names += ["seg_group_%d_seg_%d" % (G, kid), "seg_group_%d_seg_%d" % (G + 1, kid)]
+            names = list(dict.fromkeys(names))
+            while len(names) < G:
+                names.append("filler_%d" % len(names))
+            rng.shuffle(names)
+            gs = [[nm, ([sids[-1]] if i % 3 == 0 else []), [], (SECTION if i % 4 == 1 else None)] for i, nm in enumerate(names)]
+            out.append({"segs": [list(x) for x in segs], "groups": gs, "notes": {}, "root": root, "reorder": False,
+                        "optimise": False, "ref": ref, "kind": "stored:old-groups-with-generated-style-ids"})
     return out
 
 
@@ -274,6 +291,19 @@ def derive_history_case(ck, case, out):
     return d
 
 
+def big_id_cases(ck):
+    """segment ids above 2**53 (not representable as doubles) and near 2**62: neighbouring ids must stay distinct"""
+    from checks.c13 import BIG_ID_TREE
+    out = []
+    ids = [x[0] for x in BIG_ID_TREE]
+    for root, reorder in ((ids[0], True), (ids[4], False), (ids[1], False)):
+        c = gen_case(ck.rng, [list(x) for x in BIG_ID_TREE], root=root, kind="stored:segment-ids-above-2**53")
+        c["groups"] = [["all", list(ids), [], None], ["some", [ids[1], ids[5]], [], None]]
+        c["reorder"], c["optimise"] = reorder, False
+        out.append(c)
+    return out
+
+
 def gen_cases(ck):
     rng = ck.rng
     cases = []
@@ -304,6 +334,7 @@ def gen_cases(ck):
         segs = gen_tree(rng, n, shape=rng.choice(["uniform", "chain", "deep", "bushy"]), idstyle=rng.choice(["perm", "sparse"]),
                         prox_prob=rng.choice([0.2, 0.6]), doc="shuffle")
         cases.append(gen_case(rng, segs, kind="random:big"))
+    cases += big_id_cases(ck)
     cases += preexisting_group_cases(ck)
     cases += history_cases(ck)
     cases += replace_history_cases(ck)
@@ -609,6 +640,23 @@ def run(ck):
     B = 400
     for k in range(0, len(cases), B):
         outs += ck.impl("c16_impl.py", {"cases": [payload(c) for c in cases[k:k + B]]}, timeout=900)["results"]
+    # the interpreter's configuration must not matter: the first deterministic cases again under -O, another hash seed and
+    # another working directory
+    nenv = 12
+    try:
+        outs_env = ck.impl("c16_impl.py", {"cases": [payload(c) for c in cases[:nenv]]}, timeout=600, pyflags=["-O"],
+                           extra_env={"PYTHONHASHSEED": "3"}, cwd="/")["results"]
+    except Exception as e:       # noqa: BLE001
+        outs_env = None
+        ck.oblige("impl:c16_impl.py:-O,PYTHONHASHSEED=3,cwd=/", False, str(e)[-1500:], kind="correspondence")
+    if outs_env is not None:
+        ck.oblige("impl:c16_impl.py:-O,PYTHONHASHSEED=3,cwd=/", True, kind="correspondence")
+        for c, a, b in zip(cases[:nenv], outs[:nenv], outs_env):
+            ck.count(1, nontrivial_key="env:" + signature(c))
+            ck.tally("environment:-O,hashseed=3,cwd=/")
+            if a != b:
+                ck.witness("C16:environment-dependence", "the result depends on the interpreter's configuration (-O, "
+                           "PYTHONHASHSEED=3, cwd=/)", input=payload(c), expected=a, observed=b)
     t2 = time.time()
     cases = [derive_history_case(ck, c, o) if c.get("history") else c for c, o in zip(cases, outs)]
     for case, out in zip(cases, outs):
